@@ -75,6 +75,22 @@ theorem validateOpen_eq_rfc (c : Cfg) (o : OpenMsg) : validateOpen c o = rfcOpen
   · have : ¬ (o.hold = 1 ∨ o.hold = 2) := by omega
     simp [h5, this]
 
+/-- RFC 6286 with RFC 6793: the "own identifier from an internal peer" test is made on the AS
+    the OPEN really announces — the value of the 4-octet-AS capability when there is one —
+    whatever the 2-octet My-AS field says (AS_TRANS for a speaker in a 4-octet AS). -/
+theorem bad_identifier_uses_real_as (c : Cfg) (w : OpenWire) (hv : w.version = 4)
+    (hc : w.cap4 = some c.localAS) (hi : w.id = c.localID) :
+    validateOpen c w.toMsg = some 3 := by
+  unfold validateOpen OpenWire.toMsg getASN
+  simp [hv, hc, hi]
+
+example : validateOpen ⟨70000, 1, 70000, 90, 30, 30, 0⟩ (OpenWire.toMsg ⟨4, asTrans, some 70000, 1, 90⟩) = some 3 := by
+  decide
+
+/-- without the capability the My-AS field is the announced AS -/
+theorem getASN_nocap (w : OpenWire) (h : w.cap4 = none) : getASN w = w.myas := by
+  simp [getASN, h]
+
 /-! ## the property -/
 
 /-- **edges_allowed** — for ALL event sequences from ANY state: the transitions reported along
